@@ -187,6 +187,11 @@ func main() {
 			subst[filepath.Clean(p[0])] = p[1]
 		}
 	}
+	for _, p := range []*string{out, jsonPath, repo, shim} {
+		if a, err := filepath.Abs(*p); err == nil {
+			*p = a
+		}
+	}
 	os.RemoveAll(*out)
 	if err := os.MkdirAll(*out, 0755); err != nil {
 		fatal("%v", err)
